@@ -67,6 +67,11 @@ def optIntOfJ : J → Option (Option Int)
   | .int i => some (some i)
   | _ => none
 
+def colorOfJ : J → Option (Option (Option Str × Option Str))
+  | .null => some none
+  | .arr [a, b] => do pure (some ((← optStrOfJ a), (← optStrOfJ b)))
+  | _ => none
+
 def optsOfJ (j : J) : Option Opts := do
   let es ← (j.get? "enable_summary") >>= optBoolOfJ
   let esfs ← j.getBool? "enable_summary_for_str"
@@ -85,9 +90,43 @@ def optsOfJ (j : J) : Option Opts := do
     | none => none
   let inc ← (j.get? "include_keys") >>= optKeysOfJ
   let exc ← (j.get? "exclude_keys") >>= optKeysOfJ
-  pure { enableSummary := es, enableSummaryForStr := esfs, maxSummaryLenForStr := maxl,
+  let kc ← (j.get? "key_color") >>= colorOfJ
+  let sc ← (j.get? "summary_color") >>= colorOfJ
+  let hl ← (j.getArr? "highlight") >>= (·.mapM keysOfJ)
+  let ll ← (j.getArr? "lowlight") >>= (·.mapM keysOfJ)
+  let title ← (j.get? "title") >>= optStrOfJ
+  let css ← (j.get? "css_classes") >>= strsOfJ
+  pure { keyColor := kc, highlight := hl, lowlight := ll,
+         top := { title := title, cssClasses := css, summaryColor := sc },
+         enableSummary := es, enableSummaryForStr := esfs, maxSummaryLenForStr := maxl,
          enableSummaryTooltip := est, enableKeyTooltip := ekt, keyStyle := ks, collapseLevel := cl,
          uncollapse := unc, name := name, includeKeys := inc, excludeKeys := exc }
+
+def labelOfJ (j : J) : Option LabelM := do
+  let text ← (j.get? "text") >>= strOfJ
+  let tooltip ← (j.get? "tooltip") >>= optStrOfJ
+  let link ← (j.get? "link") >>= optStrOfJ
+  let target ← (j.get? "target") >>= optStrOfJ
+  let id ← (j.get? "id") >>= optStrOfJ
+  let tipId ← (j.get? "tip_id") >>= optStrOfJ
+  let css ← (j.get? "css") >>= strsOfJ
+  let styles ← (j.get? "styles") >>= kvsOfJ
+  pure { text := text, tooltip := tooltip, link := link, target := target, id := id, tipId := tipId,
+         css := css, styles := styles }
+
+def subOfJ (j : J) : Option SubM := do
+  let cssName ← (j.get? "css_name") >>= strOfJ
+  let width ← (j.get? "width") >>= optStrOfJ
+  let id ← (j.get? "id") >>= optStrOfJ
+  let css ← (j.get? "css") >>= strsOfJ
+  pure { cssName := cssName, width := width, id := id, css := css }
+
+def tabOfJ (j : J) : Option TabM := do
+  let label ← (j.get? "label") >>= labelOfJ
+  let content ← (j.get? "content") >>= strOfJ
+  let css ← (j.get? "css") >>= strsOfJ
+  let id ← (j.get? "id") >>= optStrOfJ
+  pure { label := label, content := content, css := css, id := id }
 
 mutual
   partial def nodeToJ : HNode → J
@@ -132,6 +171,34 @@ def handle (j : J) : J :=
       let h := renderTree sites o t
       .obj [("html", strToJ h), ("doc", docToJ (parseHtml h))]
     | _, _ => bad "render"
+  | some "control" =>
+    match j.getStr? "kind" with
+    | some "label" =>
+      match (j.get? "label") >>= labelOfJ with
+      | some l => let h := labelCtl csites l; .obj [("html", strToJ h), ("doc", docToJ (parseHtml h))]
+      | none => bad "label"
+    | some "tooltip" =>
+      match (j.get? "text") >>= strOfJ, (j.get? "id") >>= optStrOfJ, (j.get? "css") >>= strsOfJ,
+            (j.get? "styles") >>= kvsOfJ with
+      | some t, some id, some css, some st =>
+        let h := tooltipCtl csites t id css st
+        .obj [("html", strToJ h), ("doc", docToJ (parseHtml h))]
+      | _, _, _, _ => bad "tooltip"
+    | some "progress" =>
+      match (j.getArr? "subs") >>= (·.mapM subOfJ), (j.get? "label") >>= labelOfJ with
+      | some subs, some l =>
+        let h := progressBarCtl csites subs l
+        .obj [("html", strToJ h), ("doc", docToJ (parseHtml h))]
+      | _, _ => bad "progress"
+    | some "tab" =>
+      match (j.get? "ctl_id") >>= strOfJ, (j.get? "bg_id") >>= optStrOfJ, (j.get? "cg_id") >>= optStrOfJ,
+            j.getBool? "left", j.getNat? "selected", (j.get? "css") >>= strsOfJ, (j.get? "styles") >>= kvsOfJ,
+            (j.getArr? "tabs") >>= (·.mapM tabOfJ) with
+      | some cid, some bg, some cg, some left, some sel, some css, some st, some tabs =>
+        let h := tabCtl csites cid bg cg left sel css st tabs
+        .obj [("html", strToJ h), ("doc", docToJ (parseHtml h))]
+      | _, _, _, _, _, _, _, _ => bad "tab"
+    | _ => bad "control kind"
   | some "sites" =>
     .obj [("all_escaped", .bool sites.allEscaped),
           ("table", .arr (siteTable.map fun p => .arr [.str (reprStr p.1), .bool p.2]))]
